@@ -416,10 +416,17 @@ def validate_traces(ck, prop, good, bad):
             keep = os.path.join(vf.VERIF, "replays", "%s-trace-rejected.ndjson" % prop)
             os.makedirs(os.path.dirname(keep), exist_ok=True)
             shutil.copyfile(tr, keep)
-            vf.log(r.output_tail[-3000:])
-            raise vf.NotAVerdict("RemediationTrace rejects (%s) a recorded pipeline on which the harness oracle found no %s violation: "
-                                 "spec and harness disagree (trace kept at %s)" % (r.violated, prop, keep))
-        ck.cov["traces_validated_against_impl"] += len(good)
+            msg = ("RemediationTrace rejects (%s) a recorded pipeline on which the harness oracle found no %s violation: "
+                   "the code diverges from the transcribed pipeline without breaking the property, or spec and harness disagree "
+                   "(trace kept at %s)" % (r.violated, prop, keep))
+            if not ck.violations:
+                vf.log(r.output_tail[-3000:])
+                raise vf.NotAVerdict(msg)
+            # the real code already violated the property elsewhere in this run: that verdict stands
+            ck.cov["trace_divergence"] = msg
+            vf.log("[trace] " + msg)
+        else:
+            ck.cov["traces_validated_against_impl"] += len(good)
         ck.cov["trace_events"] = n
         # the pipelines the harness oracle rejected must be rejected by the specification too
         mine = [o for o in bad if any(f["prop"] == prop for f in o["findings"]) and
